@@ -33,6 +33,15 @@ CLAIMED = {
  "C12": ("exploration", "model-based stateful property testing against a window model of incomplete exchanges (proptest histories, boundary-biased Receive Maximum)",
          "v5.0 histories with the peer's Receive Maximum mostly in {1,2,3}: QoS1/2 sends up to and beyond the limit, acknowledgements (success and error), erasures, other refusals, closes and resumes with stored PUBLISH/PUBREL and changed limits. A publish is accepted iff fewer than M exchanges of this connection are incomplete; get_receive_maximum_vacancy_for_send() must equal M minus that number after every op of an established connection; inbound publishes beyond the own Receive Maximum must be refused with DISCONNECT 0x93 and never falsely.",
          "Exchanges awaited but not retransmitted at a resume (pending PUBREL, awaited without being stored) may be counted from the resume or from their next packet: both readings accepted (range check). Inbound publishes that were not delivered may or may not occupy the window. Applications never abandon an exchange by releasing its id in this profile.", "DESIGN.md §3 C12"),
+ "C13": ("exploration", "model-based stateful property testing against an independent receiver alias table (proptest histories)",
+         "v5.0 histories over a small topic/alias alphabet with manual bind/use, auto-map, auto-replace, QoS0/1/2, refusals in between (Receive Maximum mostly 1..3, packet size, not connected), LRU pressure, closes/reconnects, stored packets and regulate_for_store; inbound binds/uses in and out of range. Every PUBLISH requested for sending must resolve, in a receiver table fed only by packets actually sent on this connection, to the topic the application asked for; stored/resent/regulated packets carry the full intended topic and no alias; inbound aliased publishes are delivered with the topic bound on this connection or rejected.",
+         "The intended topic of a manual (\"\", a) publish is the application's last accepted bind of a (or the binding it saw in a RequestSendPacket). Publishes are identified by a unique payload tag.", "DESIGN.md §3 C13"),
+ "C14": ("exploration", "history invariant (monitor) with boundary-directed limits over proptest-generated histories",
+         "v5.0 histories in which the Maximum Packet Size in each direction is placed at size-2..size+3 of a packet the history sends/receives (or in {1..8,20..60,100000,absent}); every RequestSendPacket (direct, automatic response, stored-and-resent, alias-rewritten, timer) must have size() and encoded length <= the limit captured from the peer's CONNECT/CONNACK; oversize stored packets are dropped with release on resume; oversize inbound frames are not delivered and answered with DISCONNECT 0x95.",
+         "DISCONNECT 0x95 only required on an established connection and when it fits the peer's own limit.", "DESIGN.md §3 C14"),
+ "C15": ("exploration", "history invariant (monitor) against a timer model over proptest-generated histories",
+         "Histories with keep-alive {0,1,10,65535}, Server Keep Alive {absent,0,7}, ping-interval override {None,0,3000}, response timeout {0,5000} changed at arbitrary points, all sends/receives, expiries of armed timers only, closes, DISCONNECTs, reconnects; all roles/versions. Checks: cancel only when armed, nothing armed after close/DISCONNECT or by local calls while disconnected, client re-arm with the priority-selected interval after every list that sends, server 1.5 x keep-alive re-arm on every accepted packet and never for 0, PINGREQ/PINGRESP response timer, expiry effects.",
+         "'Local call' excludes recv and notify_timer_fired; expiry effects asserted while established and before a close request.", "DESIGN.md §3 C15"),
  "C18": ("exploration", "exhaustive table enumeration against the specification's property table plus random property sets (proptest)",
          "The complete table 27 property kinds x 14 locations x occurrences {1,2} x boundary values is enumerated for the builder path and, through independently encoded bytes, for the parser path; 200k (thorough 3M) random multi-property sets follow. Verdicts must equal MQTT 5.0 table 2-4 plus the value rules, and builder must equal parser.",
          "The oracle table is transcribed in harness/src/ap.rs (PROP_TABLE, prop_value_ok). Authentication Data is always accompanied by an Authentication Method (cross-property rule kept out of the cells).", "DESIGN.md §3 C18"),
